@@ -75,7 +75,7 @@ var opKinds = []string{
 	"timeout", "timeout",
 	"fair", "fair", "fair",
 	"byzvote", "byzvote", "byzprop", "split",
-	"dup", "drop", "crashrestart", "crash", "restart", "sync", "amnesia",
+	"dup", "drop", "crashrestart", "crash", "restart", "sync", "amnesia", "stalepolka", "lateproposal",
 }
 
 func GenOp(t *rapid.T) sim.Op {
@@ -177,6 +177,12 @@ func runCase(c Case, x *h.Ctx) {
 	}
 	if st.Locked {
 		x.Label("locked-seen")
+	}
+	if st.StalePolkas > 0 {
+		x.Label("stale-polka-attack-completed")
+	}
+	if st.LateProposals > 0 {
+		x.Label("late-proposal-attack-completed")
 	}
 	if st.Splits > 0 {
 		x.Label("split-attack")
